@@ -351,6 +351,8 @@ class Folder(FileSystemItemABC):
                 file.scan()
                 if file.visible_health_status == FileSystemItemHealthStatus.CORRUPT:
                     self.visible_health_status = FileSystemItemHealthStatus.CORRUPT
+            # a whole-node scan has just looked at this folder: observations that wait for a scan refresh in this step
+            self._scanned_this_step = True
             return True
 
         if self.scan_countdown <= 0:
